@@ -82,7 +82,15 @@ type Task struct {
 	loopVersion uint64
 	spinVersion uint64
 	prio        int
+	// busy-wait detection that survives non-blocking lock acquisitions and inner range loops
+	// (both reset loopSite/loopN): iterations of one `for {}` site without any Version change
+	spinSite string
+	spinN    int
+	spinVer  uint64
+	spinQuick   bool // parked after only SpinQuick iterations: re-run once before quiescence is declared
+	spinConfirm bool // running that confirmation slice (full SpinPark threshold applies)
 
+	deadline time.Duration // virtual time at which a blocked I/O gives up (-1: none)
 	held map[*Mutex]string // mutexes currently owned -> lock site
 	OnDone func()
 }
@@ -124,6 +132,7 @@ type Problem struct {
 	Detail string
 	Step   uint64
 	Action int
+	Frames string // innermost Havoc frames (function:line in the instrumented copy), for triage only
 }
 
 type Sim struct {
@@ -165,6 +174,8 @@ type Sim struct {
 	StepBudget  uint64 // per Run call
 	LoopLimit   int    // iterations at one site without version change => livelock (handler tasks)
 	SpinPark    int    // iterations after which a KindGo task is parked as spinner
+	SpinQuick   int    // optional (0 = off): park a spinner already after this many iterations; before
+	                   // quiescence is declared it gets one more slice of SpinPark iterations
 	Stats       Stats
 	yieldCount  map[string]int
 	RMWPreempts uint64
@@ -269,7 +280,7 @@ func (s *Sim) problem(p Problem) {
 // Tasks
 
 func (s *Sim) Spawn(name string, kind TaskKind, site string, fn func()) *Task {
-	t := &Task{ID: len(s.tasks), Name: name, Kind: kind, Site: site, wake: make(chan struct{}), Action: s.Action}
+	t := &Task{ID: len(s.tasks), Name: name, Kind: kind, Site: site, wake: make(chan struct{}), Action: s.Action, deadline: -1}
 	t.prio = 1000 + s.sched.Intn(1000)
 	s.tasks = append(s.tasks, t)
 	s.Stats.TasksSpawned++
@@ -289,7 +300,7 @@ func (s *Sim) Spawn(name string, kind TaskKind, site string, fn func()) *Task {
 					t.PanicStack = string(debug.Stack())
 					t.PanicSite = topHavocFrame(t.PanicStack)
 					if !s.Dead {
-						s.problem(Problem{Kind: "panic", Task: t.Name, TaskKind: t.Kind, Site: t.PanicSite, Detail: panicClass(r)})
+						s.problem(Problem{Kind: "panic", Task: t.Name, TaskKind: t.Kind, Site: t.PanicSite, Detail: panicClass(r), Frames: havocFrames(t.PanicStack, 4)})
 					}
 				}
 			}
@@ -467,6 +478,17 @@ func (s *Sim) shouldPreempt(t *Task, site string, _ bool) bool {
 	return false
 }
 
+// BlockDL is Block with a virtual-time deadline: when nothing else can run the clock jumps to
+// the earliest deadline and pred (which must look at the clock) is evaluated again.
+func BlockDL(site, what string, pred func() bool, deadline time.Duration) {
+	s := cur
+	if s != nil && s.cur != nil {
+		s.cur.deadline = deadline
+		defer func(t *Task) { t.deadline = -1 }(s.cur)
+	}
+	Block(site, what, pred)
+}
+
 // Block parks the current task until pred() holds.  It is always a scheduling point.
 func Block(site, what string, pred func() bool) {
 	s := cur
@@ -513,6 +535,7 @@ func Block(site, what string, pred func() bool) {
 	t.pred = nil
 	t.BlockOn = ""
 	t.resetLoop()
+	t.spinN = 0
 }
 
 func (t *Task) resetLoop() { t.loopN = 0; t.loopSite = "" }
@@ -531,7 +554,20 @@ func Loop(site string) {
 		t.loopVersion = s.Version
 		t.loopN = 1
 	}
-	if t.Kind == KindGo && t.loopN >= s.SpinPark {
+	if t.spinSite == site && t.spinVer == s.Version {
+		t.spinN++
+	} else {
+		t.spinSite, t.spinVer, t.spinN = site, s.Version, 1
+	}
+	spinLimit := s.SpinPark
+	quick := s.SpinQuick > 0 && s.SpinQuick < s.SpinPark && !t.spinConfirm
+	if quick {
+		spinLimit = s.SpinQuick
+	}
+	if t.Kind == KindGo && (t.loopN >= s.SpinPark || t.spinN >= spinLimit) {
+		t.spinQuick = quick && t.loopN < s.SpinPark
+		t.spinConfirm = false
+		t.spinN = 0
 		// background goroutine busy-waiting: park until something changes
 		s.Stats.SpinParks++
 		t.State = Spinning
@@ -643,6 +679,17 @@ func (s *Sim) Run(stop func() bool, advanceTime bool) StopReason {
 		}
 		rs := s.runnable()
 		if len(rs) == 0 {
+			// spinners parked early (SpinQuick) get a full slice before quiescence is declared
+			for _, t := range s.tasks {
+				if t.State == Spinning && t.spinQuick {
+					t.spinQuick = false
+					t.spinConfirm = true
+					rs = append(rs, t)
+					break
+				}
+			}
+		}
+		if len(rs) == 0 {
 			if advanceTime && s.fireNextTimer() {
 				continue
 			}
@@ -743,3 +790,28 @@ func Exit(code int) {
 func Fatal(v ...any)                 { Exit(1) }
 func Fatalf(format string, v ...any) { Exit(1) }
 func Fatalln(v ...any)               { Exit(1) }
+
+
+// havocFrames returns up to n innermost Havoc frames as "func (file:line)".
+func havocFrames(stack string, n int) string {
+	lines := strings.Split(stack, "\n")
+	var out []string
+	for i := 0; i+1 < len(lines) && len(out) < n; i++ {
+		l := lines[i]
+		if strings.HasPrefix(l, "Havoc/") && !strings.HasPrefix(l, "Havoc/verifsim/") {
+			fn := l
+			if j := strings.LastIndex(fn, "("); j > 0 {
+				fn = fn[:j]
+			}
+			loc := strings.TrimSpace(lines[i+1])
+			if j := strings.Index(loc, " +0x"); j > 0 {
+				loc = loc[:j]
+			}
+			if j := strings.LastIndex(loc, "/"); j >= 0 {
+				loc = loc[j+1:]
+			}
+			out = append(out, strings.TrimPrefix(fn, "Havoc/")+" ("+loc+")")
+		}
+	}
+	return strings.Join(out, " <- ")
+}
